@@ -182,6 +182,11 @@ impl AsyncWrite for UtpStreamWriteHalf {
             )));
         }
 
+        // Nothing to accept: don't mistake it for a full buffer (the caller would wait forever).
+        if buf.is_empty() {
+            return Poll::Ready(Ok(0));
+        }
+
         let count = this.user_tx.producer.lock().push_slice(buf);
         this.written_without_yield += count as u64;
         if count == 0 {
